@@ -68,7 +68,13 @@ def case_records(case: dict):
     p = case["patch"]
     centers = None
     pids = None
-    if p["mode"] in ("apply", "divide"):
+    if case.get("source") == "random" and p["mode"] == "apply":
+        # centres must be non-empty with respect to what the generator yields
+        rr, _ = expected_random_records(case)
+        deg = dict(ra=np.rad2deg(rr["ra"]), dec=np.rad2deg(rr["dec"]))
+        centers = wl.gen_centers(p.get("center_seed", d["data_seed"] + 5), p["k"], d.get("region", "box"))
+        centers = wl.ensure_nonempty_centers(deg, centers)
+    elif p["mode"] in ("apply", "divide"):
         centers = wl.gen_centers(p.get("center_seed", d["data_seed"] + 5), p["k"], d.get("region", "box"))
         deg = dict(rec)
         if not d.get("degrees", True):
@@ -325,6 +331,7 @@ def run_creation(case: dict, root: str, *, sim_kwargs: dict | None = None) -> di
         step_cap=case.get("step_cap", 60_000),
         **sk,
     )
+    sim.scrub = [os.path.realpath(root), root]
     if kind == "pool_memerror":
         sim.faults["pool_task_memerror"] = int(fault.get("k", 0))
     if kind == "fs_errno":
